@@ -25,6 +25,10 @@
 mod codec;
 mod config;
 mod io;
+#[cfg(libp2p_verif)]
+pub mod verif_c25;
+#[cfg(libp2p_verif)]
+pub mod verif_c26;
 
 use std::{
     cmp, iter,
